@@ -51,6 +51,9 @@ Lemma skip_ws_ws w rest out n fl : nowsk rest ->
   skip_ws (mk_pst (ws_toks w ++ rest) out n fl) = mk_pst rest (out ++ ws_elems w) n fl.
 Proof. intros H. unfold skip_ws. cbn [toks]. rewrite (skip_ws_l_all _ rest (ws_toks_kinds w) H). reflexivity. Qed.
 
+Lemma skip_ws_end w out n fl : skip_ws (mk_pst (ws_toks w) out n fl) = mk_pst [] (out ++ ws_elems w) n fl.
+Proof. pose proof (skip_ws_ws w [] out n fl I) as E. rewrite app_nil_r in E. exact E. Qed.
+
 Lemma skip_ws_none rest out n fl : nowsk rest -> skip_ws (mk_pst rest out n fl) = mk_pst rest out n fl.
 Proof. intros H. pose proof (skip_ws_ws [] rest out n fl H) as E. cbn [ws_toks ws_elems elems map app] in E. rewrite app_nil_r in E. exact E. Qed.
 
@@ -522,4 +525,154 @@ Proof.
       rewrite pipeline_tail by exact Hs. rewrite Enc.
       destruct v as [v|]; [|destruct a as [g|]; [|destruct ps as [|g ps']; [discriminate|]]];
         cbn [opt_elems app flat_map]; rewrite <- ?app_assoc; cbn [app]; rewrite ?app_nil_r; reflexivity.
+Qed.
+
+(* ---- an entry: relations separated by "|" ---- *)
+(* what may follow an entry: nothing or "," *)
+Definition root_sep (rest : list rtoken) : Prop :=
+  match hd_kind rest with None | Some COMMA => True | _ => False end.
+
+Lemma root_sep_sep rest : root_sep rest -> sep_toks rest.
+Proof. unfold root_sep, sep_toks. destruct (hd_kind rest) as [k|]; [|trivial]. destruct k; trivial. Qed.
+
+Lemma nowsk_rels r alts x : nowsk (rels_toks r alts ++ x).
+Proof. destruct alts as [|[w r'] alts']; reflexivity. Qed.
+
+Lemma entry_loop_rels alts : forall r fuel rest out n fl,
+  length alts < fuel -> root_sep rest ->
+  entry_loop fuel (mk_pst (rels_toks r alts ++ rest) out n fl) =
+  mk_pst (ws_toks (rels_left r alts (is_nil rest)) ++ rest) (out ++ rels_elems r alts (is_nil rest)) n fl.
+Proof.
+  induction alts as [|[w r'] alts IH]; intros r fuel rest out n fl Hf Hs;
+    (destruct fuel as [|f]; [cbn in Hf; lia|]); cbn [entry_loop rels_toks rels_left rels_elems]; cbv zeta.
+  - rewrite app_nil_r. rewrite parse_relation_rel by (apply root_sep_sep, Hs).
+    unfold peek_past_ws. cbn [toks]. rewrite peek_ws, (peek_nowsk rest (sep_nowsk _ (root_sep_sep _ Hs))).
+    destruct rest as [|[k s] rest']; cbn [hd_kind is_nil].
+    + rewrite skip_ws_ws by exact I. cbn [ws_toks app]. rewrite <- app_assoc. reflexivity.
+    + unfold root_sep in Hs. cbn [hd_kind] in Hs. destruct k; try contradiction. reflexivity.
+  - rewrite <- app_assoc. cbn [app]. rewrite <- !app_assoc.
+    rewrite parse_relation_rel by exact I. cbn [is_nil].
+    unfold peek_past_ws. cbn [toks]. rewrite peek_ws. cbn [peek_past_ws_l is_ws_kind].
+    rewrite skip_ws_ws by reflexivity. rewrite bump_cons.
+    rewrite skip_ws_ws by apply nowsk_rels.
+    rewrite IH by (cbn in Hf; lia || exact Hs). rewrite <- !app_assoc. reflexivity.
+Qed.
+
+Lemma len_rels alts : forall r, length alts <= length (rels_toks r alts).
+Proof.
+  induction alts as [|[w r'] alts IH]; intros r; cbn [rels_toks length]; [lia|].
+  rewrite app_length. cbn [length]. rewrite app_length. specialize (IH r'). lia.
+Qed.
+
+Lemma parse_entry_rels r alts rest out n fl : root_sep rest ->
+  parse_entry (mk_pst (rels_toks r alts ++ rest) out n fl) =
+  mk_pst (ws_toks (rels_left r alts (is_nil rest)) ++ rest) (out ++ [Node ENTRY (rels_elems r alts (is_nil rest))]) n fl.
+Proof.
+  intros Hs. unfold parse_entry. cbv zeta. rewrite skip_ws_none by apply nowsk_rels.
+  apply in_node_to. cbn [toks]. rewrite entry_loop_rels; [reflexivity| |exact Hs].
+  rewrite app_length. pose proof (len_rels alts r). lia.
+Qed.
+
+(* ---- a substitution variable ---- *)
+Lemma substvar_loop_inner l : forall fuel x rest out n fl,
+  Forall (fun t => fst t = IDENT \/ fst t = COLON) l -> length l < fuel ->
+  substvar_loop fuel (mk_pst (l ++ (R_CURLY, x) :: rest) out n fl) = mk_pst ((R_CURLY, x) :: rest) (out ++ elems l) n fl.
+Proof.
+  induction l as [|[k s] t IH]; intros fuel x rest out n fl Hl Hf; (destruct fuel as [|f]; [cbn in Hf; lia|]).
+  - cbn [app substvar_loop elems map]. rewrite current_eq. cbn [hd_kind]. rewrite app_nil_r. reflexivity.
+  - inversion Hl as [|? ? Hk Ht]; subst. cbn [fst] in Hk. cbn [app substvar_loop]. rewrite current_eq. cbn [hd_kind].
+    destruct Hk as [-> | ->]; rewrite bump_cons; (rewrite IH; [|exact Ht|cbn in Hf; lia]);
+      cbn [elems map fst snd tk]; rewrite <- app_assoc; reflexivity.
+Qed.
+
+Lemma subst_inner_kinds seg segs : Forall (fun t => fst t = IDENT \/ fst t = COLON) (subst_inner_toks seg segs).
+Proof.
+  unfold subst_inner_toks. constructor; [left; reflexivity|].
+  induction segs as [|s r IH]; cbn [flat_map app]; [constructor|].
+  constructor; [right; reflexivity|]. constructor; [left; reflexivity|exact IH].
+Qed.
+
+Lemma parse_substvar_subst seg segs rest out n fl :
+  parse_substvar (mk_pst (subst_toks seg segs ++ rest) out n fl) = mk_pst rest (out ++ [subst_node seg segs]) n fl.
+Proof.
+  unfold parse_substvar. apply in_node_to. cbv zeta. unfold subst_toks. cbn [app].
+  rewrite bump_cons. rewrite cur_is_eq. cbn [hd_kind rkind_eqb rkind_code N.eqb Pos.eqb]. rewrite bump_cons.
+  rewrite <- app_assoc. cbn [app].
+  rewrite substvar_loop_inner; [|apply subst_inner_kinds|unfold loop_fuel; cbn [toks]; rewrite app_length; lia].
+  rewrite cur_is_eq. cbn [hd_kind rkind_eqb rkind_code N.eqb Pos.eqb]. rewrite bump_cons.
+  cbn [elems map fst snd tk app]. rewrite elems_app. cbn [elems map fst snd tk app]. rewrite <- ?app_assoc. reflexivity.
+Qed.
+
+(* ---- the field: items separated by "," ---- *)
+Lemma nowsk_items i more : nowsk (items_toks i more).
+Proof.
+  destruct i as [r alts|seg segs trail|].
+  - destruct more as [|[w i'] more']; cbn [items_toks item_toks]; apply nowsk_rels.
+  - destruct more as [|[w i'] more']; reflexivity.
+  - destruct more as [|[w i'] more']; reflexivity.
+Qed.
+
+Lemma hd_rels r alts x : hd_kind (rels_toks r alts ++ x) = Some IDENT.
+Proof. destruct alts as [|[w r'] alts']; reflexivity. Qed.
+
+Lemma root_loop_items a more : forall i fuel out n,
+  length more < fuel -> wf_item a i = true -> forallb (wf_more a) more = true ->
+  root_loop a fuel (mk_pst (items_toks i more) out n 0%N) = mk_pst [] (out ++ items_elems i more) n 0%N.
+Proof.
+  induction more as [|[w i'] more IH]; intros i fuel out n Hf Hi Hm;
+    (destruct fuel as [|f]; [cbn in Hf; lia|]); cbn [items_toks items_elems is_nil].
+  - rewrite !app_nil_r. destruct i as [r alts|seg segs trail|]; cbn [item_toks item_elems].
+    + cbn [root_loop]. rewrite current_eq. rewrite <- (app_nil_r (rels_toks r alts)). rewrite hd_rels. cbv zeta.
+      rewrite parse_entry_rels by exact I. cbn [is_nil rels_left].
+      assert (E : rels_left r alts true = []) by (clear; revert r; induction alts as [|[w r'] alts IH]; intros r; cbn [rels_left]; [reflexivity|apply IH]).
+      rewrite E. cbn [ws_toks app]. rewrite skip_ws_none by exact I. rewrite current_eq. cbn [hd_kind].
+      rewrite ws_elems_nil. reflexivity.
+    + cbn [wf_item] in Hi. apply andb_true_iff in Hi. destruct Hi as [Hi _]. apply andb_true_iff in Hi. destruct Hi as [Hi _].
+      apply andb_true_iff in Hi. destruct Hi as [Ha _]. subst a.
+      cbn [root_loop]. rewrite current_eq. unfold subst_toks at 1. cbn [app hd_kind]. cbv zeta.
+      change ((DOLLAR, [36%N]) :: (L_CURLY, [123%N]) :: (subst_inner_toks seg segs ++ [(R_CURLY, [125%N])]) ++ ws_toks trail)
+        with (subst_toks seg segs ++ ws_toks trail ++ []).
+      rewrite parse_substvar_subst. rewrite ?app_nil_r. rewrite skip_ws_end. rewrite current_eq. cbn [hd_kind].
+      rewrite <- app_assoc. reflexivity.
+    + cbn [root_loop]. rewrite current_eq. cbn [hd_kind]. rewrite app_nil_r. reflexivity.
+  - cbn [forallb] in Hm. apply andb_true_iff in Hm. destruct Hm as [Hwi Hm]. unfold wf_more in Hwi. cbn [fst snd] in Hwi.
+    apply andb_true_iff in Hwi. destruct Hwi as [_ Hi'].
+    assert (Tail : forall out', root_loop a f (skip_ws (bump (mk_pst ((COMMA, [44%N]) :: ws_toks w ++ items_toks i' more) out' n 0%N))) =
+                     mk_pst [] (out' ++ Tok COMMA [44%N] :: ws_elems w ++ items_elems i' more) n 0%N).
+    { intros out'. rewrite bump_cons. rewrite skip_ws_ws by apply nowsk_items.
+      rewrite IH by (cbn in Hf; lia || assumption). rewrite <- !app_assoc. reflexivity. }
+    destruct i as [r alts|seg segs trail|]; cbn [item_toks item_elems].
+    + cbn [root_loop]. rewrite current_eq. rewrite hd_rels. cbv zeta.
+      rewrite parse_entry_rels by exact I. cbn [is_nil].
+      rewrite skip_ws_ws by reflexivity. rewrite current_eq. cbn [hd_kind].
+      rewrite Tail. rewrite <- !app_assoc. reflexivity.
+    + cbn [wf_item] in Hi. apply andb_true_iff in Hi. destruct Hi as [Hi _]. apply andb_true_iff in Hi. destruct Hi as [Hi _].
+      apply andb_true_iff in Hi. destruct Hi as [Ha _]. subst a.
+      cbn [root_loop]. rewrite current_eq. unfold subst_toks at 1. cbn [app hd_kind]. cbv zeta.
+      rewrite <- !app_assoc. rewrite parse_substvar_subst. rewrite skip_ws_ws by reflexivity. rewrite current_eq. cbn [hd_kind].
+      rewrite Tail. rewrite <- !app_assoc. reflexivity.
+    + cbn [app root_loop]. rewrite current_eq. cbn [hd_kind]. cbv zeta.
+      rewrite skip_ws_none by reflexivity. rewrite current_eq. cbn [hd_kind].
+      rewrite Tail. reflexivity.
+Qed.
+
+Lemma len_items more : forall i, length more <= length (items_toks i more).
+Proof.
+  induction more as [|[w i'] more IH]; intros i; cbn [items_toks length]; [lia|].
+  rewrite app_length. cbn [length]. rewrite app_length. specialize (IH i'). lia.
+Qed.
+
+Theorem parse_rtoks a f : wf_rfield a f = true -> parse_tokens a (rtoks f) = Ok (rtree_of f, 0).
+Proof.
+  intros H. unfold wf_rfield in H. andb_split H. unfold parse_tokens, rtoks.
+  erewrite in_node_to.
+  2:{ cbv zeta. rewrite skip_ws_ws by apply nowsk_items. unfold loop_fuel. cbn [toks].
+      rewrite (root_loop_items a); [reflexivity| |assumption|assumption].
+      pose proof (len_items (f_rest f) (f_first f)). lia. }
+  cbn [flag RelParse.out nerr app N.eqb]. reflexivity.
+Qed.
+
+Theorem parse_rrender a f : wf_rfield a f = true -> RelParse.parse (rrender f) a = Ok (rtree_of f, 0).
+Proof.
+  intros H. unfold RelParse.parse. rewrite (rlex_rrender a f H). apply parse_rtoks, H.
 Qed.
